@@ -5,3 +5,18 @@ claim("C01", "E1", "exploration",
       "is encoded by the library and by a table-driven restatement of RFC 8907 and compared byte for byte, then the reference bytes are decoded by the library and compared field by field. "
       "Exhaustive inside the stated alphabet; symmetric layout mistakes cannot hide because the reference does not share code with the library.",
       "trusts mc/ref/layout.go as a faithful restatement of RFC 8907; factored product assumes layout positions independent of enum values", "3/C01")
+claim("C02", "E1", "exploration",
+      "bounded-exhaustive input enumeration (value-first and decode-first) with a round-trip / must-refuse oracle",
+      "Every combination of text lengths on both sides of each wire width, argument counts/lengths on both sides of 255, invalid enum neighbours and non-ASCII bytes is encoded: "
+      "accepted values must round-trip exactly, unrepresentable or invalid values must be refused with no bytes. Every byte string of the C04 generator that decodes must re-encode to bytes that decode to the same value.",
+      "validation rules restated in the harness from the property's anchors; enumeration is exhaustive inside the listed boundary alphabet only", "3/C02")
+claim("C03", "E1", "exploration",
+      "bounded-exhaustive enumeration of (secret, session, version, seq, flags, length) on the real stream reader/writer against an independent MD5 pad",
+      "The real server loop and the real Client.Send run over a scripted connection for every tuple of the alphabet; bytes on the wire are compared with cleartext XOR an independent RFC 8907 4.5 pad, "
+      "cleartext received is compared with cleartext sent, header octets and length are compared raw. Covers every 16-byte block boundary up to the 65536 limit in the thorough tier.",
+      "trusts crypto/md5 and mc/ref/pad.go; session ids and secrets outside the alphabet are covered only as far as the code is data-independent", "3/C03")
+claim("C04", "E1", "exploration",
+      "bounded-exhaustive malformed-input enumeration with panic, over-read (spare-capacity differential), validity and allocation oracles",
+      "Every prefix, single-octet corruption and length/tail mismatch of a corpus of valid encodings, every short string over {0,1,ff} and every lying packet length is given to all nine decoders and Request.Fields; "
+      "a panic, a result that depends on bytes beyond len(input), an accepted value that fails validation, a field not made of input bytes or an allocation above 16*len+16KiB is a violation.",
+      "inputs outside the mutation alphabet are not explored; allocation measured via runtime.MemStats in an otherwise idle worker", "3/C04")
